@@ -9,6 +9,7 @@ Decided clauses:
        crypto_sign_ed25519_open zeroes its outputs on failure (C02 R2.4/R2.5 instances).
   R6.2 key generation from a seed and signing (plain and pre-hashed) cannot reach a random
        source, an entropy/time external, or any store to / load from process-global mutable state.
+  R6.6 every limb sc25519_muladd / sc25519_reduce pack into the scalar bytes (except the top one) is the remainder of its own carry step.
   R6.5 the Ed25519 -> X25519 key conversions read their input completely before the first write through the output.
   R6.4 combined-mode crypto_sign moves the message to sm + 64 first and hands *that copy* to the detached signer, on every path:
        "every signature so produced verifies" also when the caller's m lies inside sm (the signer hashes the message twice and
@@ -141,6 +142,10 @@ def run(ctx, chk):
     # R, A, S into sm[0..64) in between): shared with C13 R13.1
     from . import c13
     c13.sign_move_rule(prog, chk, "R6.4")
+    # ---- R6.6 S = (r + h * a) mod L is encoded from fully carried limbs (E12 family): every limb of sc25519_muladd / sc25519_reduce
+    # that is packed into the 32 output bytes, except the top one, is the remainder of its own carry step
+    from .. import knownbits
+    knownbits.reduced_limb_rule(prog, chk, "R6.6", ("sc25519_muladd", "sc25519_reduce"), floor=22)
     # ---- R6.5 the Ed25519 -> X25519 key conversions consume their input before they touch the output (C05's R5.3 engine): a
     # conversion that clears or scribbles on the output first returns garbage (or a spurious rejection) when converting in place
     from . import c05
